@@ -7,9 +7,13 @@
    only its own field.  PROVED (Proofs/NormGen.v): each of the six generator models (the models that
    are compared with the real generators' output on every run) looks at its input only through
    norm_bmodel (normalised type names, the padding that takes effect), for EVERY model; hence two
-   visitor results with same_meaning = true yield identical code for every target.  PARTIAL: that the
-   listed rewrites preserve `visit` up to same_meaning is evaluated on every run, not proved; proved
-   are the alias tables (every long spelling normalises to the type of its short one).
+   visitor results with same_meaning = true yield identical code for every target.  PROVED
+   (Proofs/SpellingProofs.v): ten of the thirteen rewrites preserve `visit` up to same_meaning for ALL
+   parse trees (drop_docs, seps_all, seps_none unguarded; alias_long, alias_long_opts, alias_short,
+   zchar, expand_keys, default_options, prefix_attr under the guard stated in each theorem - the
+   guards exclude trees the lexer cannot produce and the recorded findings), hence identical code
+   for every target (C08_rw_*_same_code, end of this file).  PARTIAL: drop_default_pad,
+   add_default_pad and inline_meta are evaluated on every run, not proved.
    The full statement is FALSE of the faithful model on the witnesses below (recorded findings
    visitor-C08): shared MetaData attribute objects, the bare default pad character, mixed key lists. *)
 From FP Require Import PT Flatten Visitor VisitorShow Faults NoPanic Spelling VisitorWitnesses VisitorProofs Go Py Cpp Rust Java Lua Frag NormGen.
@@ -82,3 +86,246 @@ Theorem C08_mixed_key_list_refuted :
 Proof. exact (mixed_key_list_refuted). Qed.
 Print Assumptions C08_mixed_key_list_refuted.
 
+
+(* ------------------------------------------------------------------ the rewrites, for ALL parse trees (Proofs/SpellingProofs.v)
+   PROVED for every parse tree t (no bound on size, any MetaData/packets/options): if the visitor accepts t without
+   diagnostics and the guard (a boolean function of the tree) holds, it accepts the rewritten tree and the two results have the same
+   meaning, hence (NormGen) identical code for every target.  The guards:
+     alias_guard, zchar_guard      exclude only trees the lexer cannot produce (token texts that do not spell their token type);
+     alias_opts_guard              no option value is the dynamic-string keyword (refuted below without it);
+     no_mixed_key_list             every key list has its numbers before its strings (a list of one kind has);
+     default_options_guard         not: FixedStringPadFromLeft declared and FixedStringPadChar not declared;
+     prefix_attr_guard             every inline @lengthOf/@calculatedFrom declaration with a written type has a basic or dynamic
+                                   type that agrees with the type the inline form takes (which is that of the MetaData entry of
+                                   the field's NAME when there is one); refuted below without it.
+   NOT proved: rw_drop_default_pad, rw_add_default_pad (the results differ in the string objects' padding, equal only after the
+   configured default is filled in: needs the erasure extended to the store), rw_inline_meta (refuted above as stated).
+   Each Example shows the statement is not vacuous: a tree from the real parser that satisfies the hypotheses and is changed
+   by the rewrite. *)
+From FP Require Import SpellingProofs.
+
+Theorem C08_rw_drop_docs_preserves : forall t r, visit t = VOk r -> r_diags r = [] ->
+  exists r', visit (rw_drop_docs t) = VOk r' /\ same_meaning r r' = true.
+Proof. exact rw_drop_docs_preserves. Qed.
+Print Assumptions C08_rw_drop_docs_preserves.
+
+Theorem C08_rw_drop_docs_same_code : forall l names t r, visit t = VOk r -> r_diags r = [] ->
+  exists r', visit (rw_drop_docs t) = VOk r' /\ gen_of l (to_bmodel_names names r) = gen_of l (to_bmodel_names names r').
+Proof. exact rw_drop_docs_same_code. Qed.
+Print Assumptions C08_rw_drop_docs_same_code.
+
+Theorem C08_rw_drop_docs_same_lua : forall names t r, visit t = VOk r -> r_diags r = [] ->
+  exists r', visit (rw_drop_docs t) = VOk r' /\ gen_lua (to_bmodel_names names r) = gen_lua (to_bmodel_names names r').
+Proof. intros names t r Hv Hd. exact (same_lua_of_preserves _ _ preserves_drop_docs names t r Hv Hd eq_refl). Qed.
+Print Assumptions C08_rw_drop_docs_same_lua.
+
+Theorem C08_rw_drop_docs_example :
+  (exists r, visit w_spelling = VOk r /\ r_diags r = []) /\ no_guard w_spelling = true /\ same_tokens (rw_drop_docs w_spelling) w_spelling = false.
+Proof. exact rw_drop_docs_example. Qed.
+Print Assumptions C08_rw_drop_docs_example.
+
+Theorem C08_rw_seps_all_preserves : forall t r, visit t = VOk r -> r_diags r = [] ->
+  exists r', visit (rw_seps_all t) = VOk r' /\ same_meaning r r' = true.
+Proof. exact rw_seps_all_preserves. Qed.
+Print Assumptions C08_rw_seps_all_preserves.
+
+Theorem C08_rw_seps_all_same_code : forall l names t r, visit t = VOk r -> r_diags r = [] ->
+  exists r', visit (rw_seps_all t) = VOk r' /\ gen_of l (to_bmodel_names names r) = gen_of l (to_bmodel_names names r').
+Proof. exact rw_seps_all_same_code. Qed.
+Print Assumptions C08_rw_seps_all_same_code.
+
+Theorem C08_rw_seps_all_same_lua : forall names t r, visit t = VOk r -> r_diags r = [] ->
+  exists r', visit (rw_seps_all t) = VOk r' /\ gen_lua (to_bmodel_names names r) = gen_lua (to_bmodel_names names r').
+Proof. intros names t r Hv Hd. exact (same_lua_of_preserves _ _ preserves_seps_all names t r Hv Hd eq_refl). Qed.
+Print Assumptions C08_rw_seps_all_same_lua.
+
+Theorem C08_rw_seps_all_example :
+  (exists r, visit w_spelling = VOk r /\ r_diags r = []) /\ no_guard w_spelling = true /\ same_tokens (rw_seps_all w_spelling) w_spelling = false.
+Proof. exact rw_seps_all_example. Qed.
+Print Assumptions C08_rw_seps_all_example.
+
+Theorem C08_rw_seps_none_preserves : forall t r, visit t = VOk r -> r_diags r = [] ->
+  exists r', visit (rw_seps_none t) = VOk r' /\ same_meaning r r' = true.
+Proof. exact rw_seps_none_preserves. Qed.
+Print Assumptions C08_rw_seps_none_preserves.
+
+Theorem C08_rw_seps_none_same_code : forall l names t r, visit t = VOk r -> r_diags r = [] ->
+  exists r', visit (rw_seps_none t) = VOk r' /\ gen_of l (to_bmodel_names names r) = gen_of l (to_bmodel_names names r').
+Proof. exact rw_seps_none_same_code. Qed.
+Print Assumptions C08_rw_seps_none_same_code.
+
+Theorem C08_rw_seps_none_same_lua : forall names t r, visit t = VOk r -> r_diags r = [] ->
+  exists r', visit (rw_seps_none t) = VOk r' /\ gen_lua (to_bmodel_names names r) = gen_lua (to_bmodel_names names r').
+Proof. intros names t r Hv Hd. exact (same_lua_of_preserves _ _ preserves_seps_none names t r Hv Hd eq_refl). Qed.
+Print Assumptions C08_rw_seps_none_same_lua.
+
+Theorem C08_rw_seps_none_example :
+  (exists r, visit w_spelling = VOk r /\ r_diags r = []) /\ no_guard w_spelling = true /\ same_tokens (rw_seps_none w_spelling) w_spelling = false.
+Proof. exact rw_seps_none_example. Qed.
+Print Assumptions C08_rw_seps_none_example.
+
+Theorem C08_rw_alias_long_preserves : forall t r, visit t = VOk r -> r_diags r = [] -> alias_guard t = true ->
+  exists r', visit (rw_alias_long t) = VOk r' /\ same_meaning r r' = true.
+Proof. exact rw_alias_long_preserves. Qed.
+Print Assumptions C08_rw_alias_long_preserves.
+
+Theorem C08_rw_alias_long_same_code : forall l names t r, visit t = VOk r -> r_diags r = [] -> alias_guard t = true ->
+  exists r', visit (rw_alias_long t) = VOk r' /\ gen_of l (to_bmodel_names names r) = gen_of l (to_bmodel_names names r').
+Proof. exact rw_alias_long_same_code. Qed.
+Print Assumptions C08_rw_alias_long_same_code.
+
+Theorem C08_rw_alias_long_same_lua : forall names t r, visit t = VOk r -> r_diags r = [] -> alias_guard t = true ->
+  exists r', visit (rw_alias_long t) = VOk r' /\ gen_lua (to_bmodel_names names r) = gen_lua (to_bmodel_names names r').
+Proof. exact (same_lua_of_preserves _ _ preserves_alias_long). Qed.
+Print Assumptions C08_rw_alias_long_same_lua.
+
+Theorem C08_rw_alias_long_example :
+  (exists r, visit w_spelling = VOk r /\ r_diags r = []) /\ alias_guard w_spelling = true /\ same_tokens (rw_alias_long w_spelling) w_spelling = false.
+Proof. exact rw_alias_long_example. Qed.
+Print Assumptions C08_rw_alias_long_example.
+
+Theorem C08_rw_alias_long_opts_preserves : forall t r, visit t = VOk r -> r_diags r = [] -> alias_opts_guard t = true ->
+  exists r', visit (rw_alias_long_opts t) = VOk r' /\ same_meaning r r' = true.
+Proof. exact rw_alias_long_opts_preserves. Qed.
+Print Assumptions C08_rw_alias_long_opts_preserves.
+
+Theorem C08_rw_alias_long_opts_same_code : forall l names t r, visit t = VOk r -> r_diags r = [] -> alias_opts_guard t = true ->
+  exists r', visit (rw_alias_long_opts t) = VOk r' /\ gen_of l (to_bmodel_names names r) = gen_of l (to_bmodel_names names r').
+Proof. exact rw_alias_long_opts_same_code. Qed.
+Print Assumptions C08_rw_alias_long_opts_same_code.
+
+Theorem C08_rw_alias_long_opts_same_lua : forall names t r, visit t = VOk r -> r_diags r = [] -> alias_opts_guard t = true ->
+  exists r', visit (rw_alias_long_opts t) = VOk r' /\ gen_lua (to_bmodel_names names r) = gen_lua (to_bmodel_names names r').
+Proof. exact (same_lua_of_preserves _ _ preserves_alias_long_opts). Qed.
+Print Assumptions C08_rw_alias_long_opts_same_lua.
+
+Theorem C08_rw_alias_long_opts_example :
+  (exists r, visit w_spelling = VOk r /\ r_diags r = []) /\ alias_opts_guard w_spelling = true /\ same_tokens (rw_alias_long_opts w_spelling) w_spelling = false.
+Proof. exact rw_alias_long_opts_example. Qed.
+Print Assumptions C08_rw_alias_long_opts_example.
+
+Theorem C08_rw_alias_short_preserves : forall t r, visit t = VOk r -> r_diags r = [] -> alias_short_guard t = true ->
+  exists r', visit (rw_alias_short t) = VOk r' /\ same_meaning r r' = true.
+Proof. intros t r Hv Hd Hg. exact (preserves_alias_short t r Hv Hd Hg). Qed.
+Print Assumptions C08_rw_alias_short_preserves.
+
+Theorem C08_rw_alias_short_same_code : forall l names t r, visit t = VOk r -> r_diags r = [] -> alias_short_guard t = true ->
+  exists r', visit (rw_alias_short t) = VOk r' /\ gen_of l (to_bmodel_names names r) = gen_of l (to_bmodel_names names r').
+Proof. exact rw_alias_short_same_code. Qed.
+Print Assumptions C08_rw_alias_short_same_code.
+
+Theorem C08_rw_alias_short_same_lua : forall names t r, visit t = VOk r -> r_diags r = [] -> alias_short_guard t = true ->
+  exists r', visit (rw_alias_short t) = VOk r' /\ gen_lua (to_bmodel_names names r) = gen_lua (to_bmodel_names names r').
+Proof. exact (same_lua_of_preserves _ _ preserves_alias_short). Qed.
+Print Assumptions C08_rw_alias_short_same_lua.
+
+Theorem C08_rw_alias_short_example :
+  (exists r, visit w_spelling = VOk r /\ r_diags r = []) /\ alias_short_guard w_spelling = true /\ same_tokens (rw_alias_short w_spelling) w_spelling = false.
+Proof. exact rw_alias_short_example. Qed.
+Print Assumptions C08_rw_alias_short_example.
+
+Theorem C08_rw_zchar_preserves : forall t r, visit t = VOk r -> r_diags r = [] -> zchar_guard t = true ->
+  exists r', visit (rw_zchar t) = VOk r' /\ same_meaning r r' = true.
+Proof. exact rw_zchar_preserves. Qed.
+Print Assumptions C08_rw_zchar_preserves.
+
+Theorem C08_rw_zchar_same_code : forall l names t r, visit t = VOk r -> r_diags r = [] -> zchar_guard t = true ->
+  exists r', visit (rw_zchar t) = VOk r' /\ gen_of l (to_bmodel_names names r) = gen_of l (to_bmodel_names names r').
+Proof. exact rw_zchar_same_code. Qed.
+Print Assumptions C08_rw_zchar_same_code.
+
+Theorem C08_rw_zchar_same_lua : forall names t r, visit t = VOk r -> r_diags r = [] -> zchar_guard t = true ->
+  exists r', visit (rw_zchar t) = VOk r' /\ gen_lua (to_bmodel_names names r) = gen_lua (to_bmodel_names names r').
+Proof. exact (same_lua_of_preserves _ _ preserves_zchar). Qed.
+Print Assumptions C08_rw_zchar_same_lua.
+
+Theorem C08_rw_zchar_example :
+  (exists r, visit w_spelling = VOk r /\ r_diags r = []) /\ zchar_guard w_spelling = true /\ same_tokens (rw_zchar w_spelling) w_spelling = false.
+Proof. exact rw_zchar_example. Qed.
+Print Assumptions C08_rw_zchar_example.
+
+Theorem C08_rw_expand_keys_preserves : forall t r, visit t = VOk r -> r_diags r = [] -> no_mixed_key_list t = true ->
+  exists r', visit (rw_expand_keys t) = VOk r' /\ same_meaning r r' = true.
+Proof. exact rw_expand_keys_preserves. Qed.
+Print Assumptions C08_rw_expand_keys_preserves.
+
+Theorem C08_rw_expand_keys_same_code : forall l names t r, visit t = VOk r -> r_diags r = [] -> no_mixed_key_list t = true ->
+  exists r', visit (rw_expand_keys t) = VOk r' /\ gen_of l (to_bmodel_names names r) = gen_of l (to_bmodel_names names r').
+Proof. exact rw_expand_keys_same_code. Qed.
+Print Assumptions C08_rw_expand_keys_same_code.
+
+Theorem C08_rw_expand_keys_same_lua : forall names t r, visit t = VOk r -> r_diags r = [] -> no_mixed_key_list t = true ->
+  exists r', visit (rw_expand_keys t) = VOk r' /\ gen_lua (to_bmodel_names names r) = gen_lua (to_bmodel_names names r').
+Proof. exact (same_lua_of_preserves _ _ preserves_expand_keys). Qed.
+Print Assumptions C08_rw_expand_keys_same_lua.
+
+Theorem C08_rw_expand_keys_example :
+  (exists r, visit w_spelling = VOk r /\ r_diags r = []) /\ no_mixed_key_list w_spelling = true /\ same_tokens (rw_expand_keys w_spelling) w_spelling = false.
+Proof. exact rw_expand_keys_example. Qed.
+Print Assumptions C08_rw_expand_keys_example.
+
+Theorem C08_rw_default_options_preserves : forall t r, visit t = VOk r -> r_diags r = [] -> default_options_guard t = true ->
+  exists r', visit (rw_default_options t) = VOk r' /\ same_meaning r r' = true.
+Proof. exact rw_default_options_preserves. Qed.
+Print Assumptions C08_rw_default_options_preserves.
+
+Theorem C08_rw_default_options_same_code : forall l names t r, visit t = VOk r -> r_diags r = [] -> default_options_guard t = true ->
+  exists r', visit (rw_default_options t) = VOk r' /\ gen_of l (to_bmodel_names names r) = gen_of l (to_bmodel_names names r').
+Proof. exact rw_default_options_same_code. Qed.
+Print Assumptions C08_rw_default_options_same_code.
+
+Theorem C08_rw_default_options_same_lua : forall names t r, visit t = VOk r -> r_diags r = [] -> default_options_guard t = true ->
+  exists r', visit (rw_default_options t) = VOk r' /\ gen_lua (to_bmodel_names names r) = gen_lua (to_bmodel_names names r').
+Proof. exact (same_lua_of_preserves _ _ preserves_default_options). Qed.
+Print Assumptions C08_rw_default_options_same_lua.
+
+Theorem C08_rw_default_options_example :
+  (exists r, visit w_spelling = VOk r /\ r_diags r = []) /\ default_options_guard w_spelling = true /\ same_tokens (rw_default_options w_spelling) w_spelling = false.
+Proof. exact rw_default_options_example. Qed.
+Print Assumptions C08_rw_default_options_example.
+
+Theorem C08_rw_prefix_attr_preserves : forall t r, visit t = VOk r -> r_diags r = [] -> prefix_attr_guard t = true ->
+  exists r', visit (rw_prefix_attr t) = VOk r' /\ same_meaning r r' = true.
+Proof. exact rw_prefix_attr_preserves. Qed.
+Print Assumptions C08_rw_prefix_attr_preserves.
+
+Theorem C08_rw_prefix_attr_same_code : forall l names t r, visit t = VOk r -> r_diags r = [] -> prefix_attr_guard t = true ->
+  exists r', visit (rw_prefix_attr t) = VOk r' /\ gen_of l (to_bmodel_names names r) = gen_of l (to_bmodel_names names r').
+Proof. exact rw_prefix_attr_same_code. Qed.
+Print Assumptions C08_rw_prefix_attr_same_code.
+
+Theorem C08_rw_prefix_attr_same_lua : forall names t r, visit t = VOk r -> r_diags r = [] -> prefix_attr_guard t = true ->
+  exists r', visit (rw_prefix_attr t) = VOk r' /\ gen_lua (to_bmodel_names names r) = gen_lua (to_bmodel_names names r').
+Proof. exact (same_lua_of_preserves _ _ preserves_prefix_attr). Qed.
+Print Assumptions C08_rw_prefix_attr_same_lua.
+
+Theorem C08_rw_prefix_attr_example :
+  (exists r, visit w_spelling = VOk r /\ r_diags r = []) /\ prefix_attr_guard w_spelling = true /\ same_tokens (rw_prefix_attr w_spelling) w_spelling = false.
+Proof. exact rw_prefix_attr_example. Qed.
+Print Assumptions C08_rw_prefix_attr_example.
+
+(* the guard of the option-value alias rewrites is needed: `options { GoPackage = string; }` *)
+Theorem C08_alias_long_opts_unguarded_refuted :
+  (exists r, visit w_dyn_option = VOk r /\ r_diags r = []) /\ alias_opts_guard w_dyn_option = false /\
+  same_meaning_o (visit w_dyn_option) (visit (rw_alias_long_opts w_dyn_option)) = false.
+Proof. exact alias_long_opts_unguarded_refuted. Qed.
+Print Assumptions C08_alias_long_opts_unguarded_refuted.
+
+Theorem C08_prefix_attr_guard_excludes_refuted :
+  prefix_attr_guard w_len_named_like_meta = false /\ prefix_attr_guard w_fixed_checksum = false.
+Proof. exact prefix_attr_guard_excludes_refuted. Qed.
+Print Assumptions C08_prefix_attr_guard_excludes_refuted.
+
+(* rw_prefix_attr is FALSE without its guard: `MetaData M { u32 len, } root packet A { u16 len @lengthOf(x), u8 x, }` *)
+Theorem C08_prefix_attr_refuted_name_like_meta :
+  (exists r, visit w_len_named_like_meta = VOk r /\ r_diags r = []) /\
+  same_meaning_o (visit w_len_named_like_meta) (visit (rw_prefix_attr w_len_named_like_meta)) = false.
+Proof. exact prefix_attr_refuted_name_like_meta. Qed.
+Print Assumptions C08_prefix_attr_refuted_name_like_meta.
+
+(* rw_prefix_attr is FALSE without its guard: `packet A { char[4] c @calculatedFrom("X"), }` *)
+Theorem C08_prefix_attr_refuted_fixed_string :
+  (exists r, visit w_fixed_checksum = VOk r /\ r_diags r = []) /\
+  same_meaning_o (visit w_fixed_checksum) (visit (rw_prefix_attr w_fixed_checksum)) = false.
+Proof. exact prefix_attr_refuted_fixed_string. Qed.
+Print Assumptions C08_prefix_attr_refuted_fixed_string.
